@@ -1,6 +1,18 @@
 HOOK_COMMITS = ["02bc05e"]
 NOT_APPLICABLE = {}
 TEXT = {
+ "C01": {
+  "text": "Abstract ledger model (balances, confirmed sends, receive markers, token contract issue/mint/burn/update) with "
+          "kernel-checked guards (no send above balance, zero-token sends empty) and the negative witness for the "
+          "pre-enforcement-height double receive; the model is replayed against every accepted block of generated "
+          "histories on a real node with all balances/supplies compared after each momentum, and a model-free monitor "
+          "checks balances + unreceived sends = supply <= max at every momentum and pool state.",
+  "design_ref": "§3 C01",
+  "note": "Invariant-by-induction theorems are being extended (see evidence.theorems for what is proved in this run); "
+          "non-token contract methods enter as observed outcomes; below ReceiverMismatchEnforcementHeight the property is "
+          "false of the code (known finding F8).",
+  "technique": "Lean 4 proof over a ledger state machine + differential replay of accepted blocks + conservation monitor",
+ },
  "C07": {
   "text": "Kernel-checked refinement: the rollback overlay that Get(X) folds from the stored undo patches, laid over the "
           "frontier, equals the store as of X for every key and every sequence of later commits (view_reconstructs), the "
